@@ -64,6 +64,11 @@ class Report:
         self.extra: Dict[str, Any] = {}
         self._seen_cases: set = set()
         self.known = [k for k in load_known() if k["property"] == pid]
+        d = os.path.join(ROOT, "replays", pid)
+        if os.path.isdir(d):
+            for fn in os.listdir(d):
+                if fn.endswith(".json"):
+                    os.unlink(os.path.join(d, fn))
 
     # ------------------------------------------------------------ bookkeeping
     def ob(self, name: str) -> Dict[str, Any]:
